@@ -33,6 +33,14 @@ fn docs(args: &[String]) {
             }
             doc.max_id = nx;
         }
+        // every fifth document holds the integers at the ends of the object model's range (and just inside them): a
+        // token that fits is an integer object, whatever a number lexer does with overflow
+        if i % 5 == 1 {
+            let nx = doc.objects.keys().map(|k| k.0).max().unwrap_or(0) + 1;
+            let edge = [i64::MIN, i64::MIN + 1, i64::MAX, i64::MAX - 1, -i64::MAX, 0, -1, 1_000_000_000_000_000_000, -1_000_000_000_000_000_000];
+            doc.objects.insert((nx, 0), Object::Array(edge.iter().map(|v| Object::Integer(*v)).collect()));
+            doc.max_id = doc.max_id.max(nx);
+        }
         // (C08 file set) several streams whose Length is an indirect object: when the Producer puts the integers into an
         // object stream, lopdf fills these streams in after the parallel phase ("deferred streams")
         let mut force: Vec<(u32, u16)> = vec![];
